@@ -367,6 +367,30 @@ def _replay(items):
     return res
 
 
+def _count_sites(sites: dict, e: dict):
+    """Where in the bounded models the antecedents of the properties are true (no vacuity)."""
+    a, o, src, dst = e["act"], e["obs"]["o"], e["src"], e["dst"]
+    if a["n"] == "Chunk" and o["done"]:
+        sites["overlay_completed"] += 1
+        if src["ov"] and src["ov"] != dst["ov"]:
+            sites["overlay_changed"] += 1
+            sites["parcel_count_changed"] += len(src["parcels"]) != len(dst["parcels"])
+        if src["ov"] and src["ov"] == dst["ov"]:
+            sites["overlay_resent_unchanged"] += 1
+        sites["parked_calls_woken"] += bool(o["reqs"])
+    elif a["n"] == "Props":
+        sites["answer_matched" if o["matched"] else "answer_unmatched"] += 1
+        sites["answer_rebinds"] += any(x and x != y for x, y in zip(src["parcels"], dst["parcels"]))
+        for c0, c1 in zip(src["calls"], dst["calls"]):
+            if c0["all"] and c0["st"] == "wr" and c1["st"] == "ok":
+                sites["download_finished"] += 1
+                sites["download_finished_stale"] += not c0["fresh"]
+    elif a["n"] == "Timeout":
+        sites["timeouts"] += 1
+    elif a["n"] == "ReqDirty" and not src["dirty"]:
+        sites["cached_dirty_call"] += 1
+
+
 INVS = ["NothingBeforeComplete", "RequestsWellFormed", "DownloadedMeansKnown", "CleanMeansKnown"]
 PROPS = ["Segmentation", "ParsedOnlyWhenComplete", "CompleteInstallsChunks", "AnswersMatchRequests", "AnswerCoversItsParcel"]
 ACTIONS = ["Chunk", "ReqProps", "GetAt", "ReqAll", "ReqDirty", "Props", "Timeout"]
@@ -394,22 +418,28 @@ def _cfg(m: dict, bugs, spec="MSpec") -> str:
 # once more at the real 64 x 64 size.
 MODELS = {
     "quick": [
-        dict(name="assembly", n=2, layouts="L2a", probes=[0], bitmaps="B2a", kinds=["client"], starts=[0], in_order=False,
+        dict(name="assembly", n=2, layouts="L2a", probes=[1], bitmaps="B2a", kinds=["client"], starts=[0], in_order=False,
              calls=2, props=1, depth=5),
-        dict(name="answers-proxy", n=4, chunks=2, layouts="L4a", probes=[5], bitmaps="B4c", kinds=["proxy"], starts=[2], in_order=True,
-             calls=2, props=2, depth=5, real=40),
-        dict(name="answers-client", n=4, chunks=2, layouts="L4a", probes=[5], bitmaps="B4a", kinds=["client"], starts=[2], in_order=True,
-             calls=2, props=2, depth=6, real=40),
+        dict(name="segmentation", n=4, layouts="L4b", probes=[], bitmaps="B4a", kinds=["client"], starts=[0], in_order=True,
+             calls=1, props=0, depth=5, real=48, design=False),
+        dict(name="answers-proxy", n=4, chunks=2, layouts="L4a", probes=[6], bitmaps="B4c", kinds=["proxy"], starts=[2], in_order=True,
+             calls=2, props=2, depth=5, real=24),
+        dict(name="answers-client", n=4, chunks=2, layouts="L4a", probes=[6], bitmaps="B4a", kinds=["client"], starts=[1], in_order=True,
+             calls=2, props=2, depth=6, real=24),
     ],
     "thorough": [
-        dict(name="assembly", n=2, layouts="L2b", probes=[0, 3], bitmaps="B2b", kinds=["client", "proxy"], starts=[0], in_order=False,
-             calls=2, props=1, depth=7),
-        dict(name="answers-proxy", n=4, layouts="L4b", probes=[5, 15], bitmaps="B4b", kinds=["proxy"], starts=[1, 2], in_order=True,
-             calls=2, props=3, depth=8, real=300),
-        dict(name="answers-client", n=4, layouts="L4b", probes=[5, 15], bitmaps="B4a", kinds=["client"], starts=[1, 2], in_order=True,
-             calls=2, props=3, depth=8, real=300),
-        dict(name="reshape", n=2, layouts="L2c", probes=[1, 2], bitmaps="B2b", kinds=["client", "proxy"], starts=[2, 3], in_order=True,
-             calls=2, props=3, depth=9),
+        dict(name="assembly", n=2, layouts="L2b", probes=[1], bitmaps="B2b", kinds=["client"], starts=[0], in_order=False,
+             calls=2, props=1, depth=6),
+        dict(name="assembly-proxy", n=2, layouts="L2a", probes=[1], bitmaps="B2b", kinds=["proxy"], starts=[0], in_order=False,
+             calls=1, props=2, depth=6),
+        dict(name="segmentation", n=4, layouts="L4b", probes=[], bitmaps="B4a", kinds=["client"], starts=[0], in_order=True,
+             calls=1, props=0, depth=5, real=300, design=False),
+        dict(name="answers-proxy", n=4, chunks=2, layouts="L4a", probes=[6], bitmaps="B4b", kinds=["proxy"], starts=[1, 2], in_order=True,
+             calls=2, props=2, depth=6, real=150),
+        dict(name="answers-client", n=4, layouts="L4a", probes=[6], bitmaps="B4a", kinds=["client"], starts=[1, 2], in_order=True,
+             calls=2, props=2, depth=8, real=150),
+        dict(name="reshape", n=2, layouts="L2d", probes=[1], bitmaps="B2a", kinds=["client"], starts=[1], in_order=True,
+             calls=2, props=3, depth=8),
     ],
 }
 
@@ -423,7 +453,7 @@ def _run_models(chk: Check, models, bugs):
     jobs = []
     for k, m in enumerate(models):
         jobs.append((k, "export", _cfg(m, bugs)))
-        if bugs:
+        if bugs and m.get("design", True):
             jobs.append((k, "design", _cfg(m, (), spec="BSpec")))
     paths = []
     for k, what, text in jobs:
@@ -458,6 +488,9 @@ def section(chk: Check, size: str = None, cap_pairs: int = 3000, bugs=AS_IS, mod
     global _G, _M
     models = models or MODELS[size or chk.tier]
     per_action = {a: 0 for a in ACTIONS}
+    sites = {k: 0 for k in ("overlay_completed", "overlay_changed", "overlay_resent_unchanged", "parcel_count_changed",
+                            "answer_matched", "answer_unmatched", "answer_rebinds", "download_finished", "download_finished_stale",
+                            "parked_calls_woken", "timeouts", "cached_dirty_call")}
     total = 0
     _warm()
     for m, g in zip(models, _run_models(chk, models, tuple(bugs))):
@@ -475,6 +508,7 @@ def section(chk: Check, size: str = None, cap_pairs: int = 3000, bugs=AS_IS, mod
         for i in edges:
             e = g.edges[i]
             per_action[e["act"]["n"]] += 1
+            _count_sites(sites, e)
             if e["src"]["ov"] != e["dst"]["ov"] or e["src"]["parcels"] != e["dst"]["parcels"] or e["obs"]["o"].get("reqs"):
                 chk.nontrivial(("parceloverlay", m["name"], e["_s"], common.skey(e["act"])))
         for bads in results:
@@ -494,6 +528,7 @@ def section(chk: Check, size: str = None, cap_pairs: int = 3000, bugs=AS_IS, mod
     chk.cov["traces_validated_against_impl"] += total
     chk.cov["parceloverlay_edges"] = total
     chk.cov["parceloverlay_actions"] = per_action
+    chk.cov["parceloverlay_sites"] = sites
     chk.assumptions += [
         "ParcelOverlay (growth): grid scaled to N x N through a subclass overriding GRIDS_PER_EDGE/GRID_STEP; a sample of the "
         "N = 4 edges is replayed at the real 64 x 64 size (16 x 16 blocks per model cell)",
